@@ -215,6 +215,23 @@ def discharge(obligations, timeout_ms=30000, use_cvc5=True, jobs=None):
                 ob.model = m
 
 
+def candidate_model(ob, timeout_ms=20000):
+    """An UNVALIDATED model of the ground-instantiated weakening of an undecided obligation: only a candidate input
+    for a native replay (which alone decides whether it is a counterexample)."""
+    fs = list(ob.pc) + [z3.Not(ob.goal)]
+    try:
+        inst = instantiate_quantifiers(fs, budget_s=10.0)
+    except z3.Z3Exception:
+        return None
+    if not inst:
+        return None
+    s = z3.Solver()
+    s.set("timeout", int(timeout_ms))
+    for f in inst:
+        s.add(f)
+    return s.model() if s.check() == z3.sat else None
+
+
 def confirm_candidate(ob, timeout_ms=20000):
     """The full query is undecided because of quantified hypotheses, but its ground-instantiated weakening has a model.
     Obtain that model and VALIDATE it: every quantified hypothesis, evaluated under the model's interpretation of all
@@ -560,223 +577,3 @@ def instantiate_quantifiers(formulas, rounds=3, max_inst=300, budget_s=5.0):
     return out2
 
 
-def obligation_inst_smt2(ob):
-    fs = list(ob.pc) + [z3.Not(ob.goal)]
-    if not any(z3.is_quantifier(e) for e in _walk(fs)):
-        return None
-    try:
-        inst = instantiate_quantifiers(fs)
-    except z3.Z3Exception:
-        return None
-    if inst is None:
-        return None
-    inst = ackermannize(inst)
-    s = z3.Solver()
-    for f in inst:
-        s.add(f)
-    return s.to_smt2()
-
-
-def get_model(ob, timeout_ms=30000, extra=()):
-    """Re-solve a failed obligation in this process to obtain a model: z3 API first; if it does not answer quickly,
-    cvc5 supplies values for the scalar inputs and z3 completes the model with those pinned."""
-    fs = list(ob.pc) + [z3.Not(ob.goal)]
-    quick = min(int(timeout_ms), 15000)
-    if extra:
-        m = _api_model(fs + list(extra), quick)
-        if m is not None:
-            return m
-    m = _api_model(fs, quick)
-    if m is not None:
-        return m
-    pins = _cvc5_scalar_values(fs, max(10, int(timeout_ms / 1000)))
-    if pins:
-        return _api_model(fs + list(pins), timeout_ms)
-    return None
-
-
-# ----------------------------------------------------------------------------------------- preprocessing
-def _walk(fs):
-    seen, stack, order = set(), list(fs), []
-    while stack:
-        e = stack.pop()
-        i = e.get_id()
-        if i in seen:
-            continue
-        seen.add(i)
-        order.append(e)
-        if z3.is_quantifier(e):
-            stack.append(e.body())
-        else:
-            stack.extend(e.children())
-    return order
-
-
-def _contains_var(e, cache):
-    i = e.get_id()
-    if i in cache:
-        return cache[i]
-    if z3.is_var(e):
-        r = True
-    elif z3.is_quantifier(e):
-        r = True   # conservative
-    else:
-        r = any(_contains_var(c, cache) for c in e.children())
-    cache[i] = r
-    return r
-
-
-def ackermannize(formulas, rounds=4, subs_out=None):
-    """Replace reads ``A[t]`` of array *constants* that are only ever read at ground indices by fresh constants
-    plus the congruence axioms (Ackermann's reduction; equisatisfiable).  z3's combination of the array/UF
-    theory with mixed integer-real arithmetic is incomplete on our heap reads; the reduction makes those
-    obligations plain LIRA."""
-    fs = [z3.simplify(f) for f in formulas]
-    n_fresh = [0]
-    for _ in range(rounds):
-        nodes = _walk(fs)
-        varcache = {}
-        reads = {}      # array const id -> list of select terms
-        bad = set()
-        consts = {}
-        for e in nodes:
-            if z3.is_quantifier(e) or not z3.is_app(e):
-                continue
-            if z3.is_select(e) and z3.is_const(e.arg(0)) and e.arg(0).decl().kind() == z3.Z3_OP_UNINTERPRETED:
-                a = e.arg(0)
-                consts[a.get_id()] = a
-                if _contains_var(e.arg(1), varcache):
-                    bad.add(a.get_id())
-                else:
-                    reads.setdefault(a.get_id(), []).append(e)
-                # the index may itself mention arrays
-                children = [e.arg(1)]
-            else:
-                children = e.children()
-            for c in children:
-                if z3.is_const(c) and z3.is_array(c) and c.decl().kind() == z3.Z3_OP_UNINTERPRETED \
-                        and not (z3.is_select(e) and c.eq(e.arg(0)) and False):
-                    # array constant used other than as the array operand of a select
-                    if not (z3.is_select(e) and e.arg(0).eq(c)) or (z3.is_select(e) and e.arg(1).eq(c)):
-                        bad.add(c.get_id())
-        # an array const also occurring under a quantifier body as non-read is caught above; occurrences inside
-        # quantifier bodies are walked too (bodies contain vars -> reads at var indices mark it bad)
-        # the congruence axioms are quadratic in the number of reads: arrays read at many places stay arrays
-        todo = [aid for aid in reads if aid not in bad and len(reads[aid]) <= 40]
-        if not todo:
-            break
-        subs, extra = [], []
-        for aid in todo:
-            sels = reads[aid]
-            fresh = []
-            for s in sels:
-                n_fresh[0] += 1
-                c = z3.Const("%s@%d" % (consts[aid].decl().name(), n_fresh[0]), s.sort())
-                fresh.append(c)
-                subs.append((s, c))
-            for i in range(len(sels)):
-                for j in range(i + 1, len(sels)):
-                    extra.append(z3.Implies(sels[i].arg(1) == sels[j].arg(1), fresh[i] == fresh[j]))
-        # substitute innermost-last: z3.substitute handles simultaneous substitution of distinct terms
-        if subs_out is not None:
-            subs_out.extend(subs)
-        fs = [z3.substitute(f, *subs) for f in fs] + [z3.substitute(x, *subs) for x in extra]
-        fs = [z3.simplify(f) for f in fs]
-    return fs
-
-
-# ------------------------------------------------------------------ manual quantifier instantiation (portfolio member)
-def _ground_terms_by_sort(fs, sorts):
-    """Candidate instantiation terms per sort: array-sorted ground subterms; integer ground terms used as indices,
-    as arguments of uninterpreted functions, plus integer constants and their negations."""
-    out = {s: {} for s in sorts}
-    cache = {}
-    int_s = z3.IntSort()
-    for e in _walk(fs):
-        if z3.is_quantifier(e) or not z3.is_app(e):
-            continue
-        es = e.sort()
-        if z3.is_array(e) and es in out and not _contains_var(e, cache):
-            out[es][e.get_id()] = e
-        if int_s not in out:
-            continue
-        cands = []
-        if z3.is_select(e) or z3.is_store(e):
-            cands = [e.arg(1)]
-        elif e.decl().kind() == z3.Z3_OP_UNINTERPRETED and e.num_args() > 0:
-            cands = e.children()
-        if z3.is_const(e) and es == int_s and e.decl().kind() == z3.Z3_OP_UNINTERPRETED:
-            out[int_s][e.get_id()] = e
-            neg = z3.simplify(-e)
-            out[int_s][neg.get_id()] = neg
-        for c in cands:
-            if c.sort() == int_s and not _contains_var(c, cache):
-                out[int_s][c.get_id()] = c
-    return {s: list(d.values()) for s, d in out.items()}
-
-
-def instantiate_quantifiers(formulas, rounds=3, max_inst=400):
-    """NNF + skolemisation (z3 tactic), then every remaining universal quantifier over integers is replaced by its
-    instances at the ground index terms of the query.  The result is WEAKER than the input (hypotheses dropped), so
-    ``unsat`` of the result proves the original obligation; any other answer is inconclusive."""
-    g = z3.Goal()
-    for f in formulas:
-        g.add(f)
-    try:
-        out = z3.Then(z3.Tactic("simplify"), z3.Tactic("nnf"))(g)
-    except z3.Z3Exception:
-        return None
-    if len(out) != 1:
-        return None
-    fs = []
-    for f in out[0]:
-        if z3.is_and(f):
-            fs.extend(f.children())
-        else:
-            fs.append(f)
-    if not any(z3.is_quantifier(f) for f in _walk(fs)):
-        return None
-    import itertools
-    for rnd in range(rounds):
-        ground = [f for f in fs if not z3.is_quantifier(f)]
-        quants = [f for f in fs if z3.is_quantifier(f)]
-        need = set()
-        for q in quants:
-            if not q.is_forall():
-                return None
-            for i in range(q.num_vars()):
-                need.add(q.var_sort(i))
-        terms = _ground_terms_by_sort(fs, need)
-        new = []
-        for q in quants:
-            n = q.num_vars()
-            pools = [terms.get(q.var_sort(i), []) for i in range(n)]
-            if any(not p for p in pools):
-                continue
-            for combo in itertools.islice(itertools.product(*pools), max_inst):
-                # de Bruijn: variable 0 is the LAST bound variable
-                new.append(z3.substitute_vars(q.body(), *reversed(combo)))
-        flat = []
-        for f in new:
-            f = z3.simplify(f)
-            if z3.is_true(f):
-                continue
-            if z3.is_and(f):
-                flat.extend(f.children())
-            else:
-                flat.append(f)
-        fs = ground + flat + (quants if rnd < rounds - 1 else [])
-    fs = [f for f in fs if not z3.is_quantifier(f)]
-    # instances that still contain (nested) quantifiers are dropped as well: the result only gets weaker
-    keep = []
-    for f in fs:
-        if any(z3.is_quantifier(e) for e in _walk([f])):
-            continue
-        keep.append(f)
-    # de-duplicate
-    seen, out2 = set(), []
-    for f in keep:
-        if f.get_id() not in seen:
-            seen.add(f.get_id())
-            out2.append(f)
-    return out2
